@@ -23,7 +23,7 @@ type profile struct {
 	noSeal    bool
 	forks     int // 0 none, 1 some runs, 2 most runs
 	resets    bool
-	deep      int // permille of runs that are one deep epoch (hundreds of frames)
+	deep      int    // permille of runs that are one deep epoch (hundreds of frames)
 	deepEv    [2]int // events of a deep run (default 400..1200)
 }
 
